@@ -454,8 +454,9 @@ impl Check for Catalogue {
     fn points(&self, t: Tier) -> Vec<CatPt> {
         let mut v = vec![];
         let grid: Vec<ItpParams> = t.pick(
-            vec![ItpParams { k1: 0.1, k2: 2.0, n0: 1.0 }, ItpParams { k1: 1.0, k2: 1.5, n0: 0.0 }],
-            [0.1, 1.0].iter().flat_map(|&k1| [1.5, 2.0, 2.5].iter().flat_map(move |&k2| [0.0, 1.0, 2.0].iter().map(move |&n0| ItpParams { k1, k2, n0 }))).collect(),
+            // (n0 = 7: a large but legal slack - with a wide bracket and a fine tolerance 2^(n_half + n0) passes 2^63)
+            vec![ItpParams { k1: 0.1, k2: 2.0, n0: 1.0 }, ItpParams { k1: 1.0, k2: 1.5, n0: 0.0 }, ItpParams { k1: 0.1, k2: 2.0, n0: 7.0 }],
+            [0.1, 1.0].iter().flat_map(|&k1| [1.5, 2.0, 2.5].iter().flat_map(move |&k2| [0.0, 1.0, 2.0, 7.0].iter().map(move |&n0| ItpParams { k1, k2, n0 }))).collect(),
         );
         for func in 0..NFUNC {
             for &a in &ENDS {
